@@ -691,21 +691,24 @@ def h_getitem_next_range(cls, dims, step, advanced=False):
 
 
 @guard
-def h_getitem_next_array(cls, dims, nidx):
+def h_getitem_next_array(cls, dims, nidx, stride=1):
     lens = dims
     """x[:, [i0, i1, ...]] (one integer array, not advanced): per list the items at the wrapped indexes, in index order; any index out of range
-    for any list raises"""
+    for any list raises.  stride: the index array is itself a strided view (idx[::2], idx[::-1]) of a longer buffer - its entries are every
+    stride-th item of that buffer, and the buffer (which belongs to the caller) is not written"""
     nc = NodeCtx(['LOA', 'LA', 'RA', 'IDX', 'CNT', 'UTL', 'KD', 'IDS', 'SLC'], [], unwind=max(10, len(lens) * nidx + nidx + 8))
     this, lists, starts, offs, short = list_node(nc, cls, lens)
     lens = node_lens(cls, lens)
     tail, adv = empty_tail_and_advanced(nc)
-    data = nc.m.array('slicedata', ('i', 64), nidx, const=True)
+    bufcount = abs(stride) * max(nidx - 1, 0) + 1 if nidx else 1
+    data = nc.m.array('slicedata', ('i', 64), max(bufcount, nidx), const=True)
     a0 = z3.Array('slicedata', z3.BitVecSort(64), z3.BitVecSort(64))
-    iv = [z3.Select(a0, BV(k)) for k in range(nidx)]
+    first = bufcount - 1 if stride < 0 else 0
+    iv = [z3.Select(a0, BV(first + stride * k)) for k in range(nidx)]
     shape = nc.m.record('sliceshape', {0: (BV(nidx), 8)}, const=True)           # std::vector<int64_t> buffers as records (copied cell-wise)
-    strides = nc.m.record('slicestrides', {0: (BV(1), 8)}, const=True)
+    strides = nc.m.record('slicestrides', {0: (BV(stride), 8)}, const=True)
     cells = {0: (nc.vptr_of('N7awkward12SliceArrayOfIlEE', 'SLC'), 8)}
-    nc.index_cells(cells, 8, data, BV(0), BV(nidx))
+    nc.index_cells(cells, 8, data, BV(first), BV(nidx))
     cells.update({64: (shape, 8), 72: (Ptr('sliceshape', 8), 8), 80: (Ptr('sliceshape', 8), 8),
                   88: (strides, 8), 96: (Ptr('slicestrides', 8), 8), 104: (Ptr('slicestrides', 8), 8), 112: (BV(0, 8), 1)})
     sl = nc.m.record('slicearray', cells, const=True)
@@ -731,7 +734,11 @@ def h_getitem_next_array(cls, dims, nidx):
         if lc > 200:
             return False, 'content too long to replay', {}
         head, inp = node_program(nc, model, lc)
-        prog = head + 'getitem 2 range NONE NONE NONE array %s' % fullnative.ints(vals)
+        if stride != 1:
+            buf = [model.eval(z3.Select(a0, BV(j)), model_completion=True).as_signed_long() for j in range(bufcount)]
+            prog = head + 'getitem 2 range NONE NONE NONE sarray %d %d %d %s' % (nidx, stride, bufcount, ' '.join(map(str, buf)))
+        else:
+            prog = head + 'getitem 2 range NONE NONE NONE array %s' % fullnative.ints(vals)
         try:
             exp = [[lst[v] for v in vals] for lst in inp]
         except IndexError:
@@ -747,7 +754,7 @@ def h_getitem_next_array(cls, dims, nidx):
         if kind != 'OK' or got != exp:
             return True, '%s lists %s [:, %s]: native library %s %s, Python gives %s' % (cls, inp, vals, kind, str(got)[:150], exp), payload
         return False, 'native library agrees (%s)' % got, payload
-    return mdischarge(nc.m, '%s::getitem_next(SliceArray64) shape=%s n=%d' % (cls, ','.join(map(str, dims)), nidx), obls, [('all in range', inr)] if lens and min(lens) > 0 else [],
+    return mdischarge(nc.m, '%s::getitem_next(SliceArray64) shape=%s n=%d%s' % (cls, ','.join(map(str, dims)), nidx, '' if stride == 1 else ' stride=%d' % stride), obls, [('all in range', inr)] if lens and min(lens) > 0 else [],
                       replay=replay, prefer=[z3.And(v >= -6, v <= 6) for v in iv] + [nc.lencontent <= 24] + [o <= 20 for o in offs],
                       extra=dict(bounds='list lengths %s and %d index entries (case split); index values any int64; offsets origin symbolic' % (lens, nidx)))
 
@@ -765,6 +772,10 @@ def jobs_c01(tier):
                 js.append((h_getitem_next_range, (cls, lens, s), 1800))
             for nidx in (1, 2):
                 js.append((h_getitem_next_array, (cls, lens, nidx), 1800))
+        # the index array is a strided / reversed view of the caller's buffer
+        for lens in ([(2, 2)] if cls == 'RegularArray' else [(2, 1)]):
+            for st_ in (2, -1):
+                js.append((h_getitem_next_array, (cls, lens, 2, st_), 1800))
         # an empty index array: one empty list per row
         for lens in ([(2, 2)] if cls == 'RegularArray' else [(2, 1)]) if tier == 'quick' else (regs[:6] if cls == 'RegularArray' else shapes[:10]):
             js.append((h_getitem_next_array, (cls, lens, 0), 1800))
